@@ -9,7 +9,7 @@ w=$(mktemp -d /tmp/seedconf_XXXX); rmdir "$w"
 t=$(mktemp -d /tmp/seedtmp_XXXX)
 git -C /repo worktree add -q --detach "$w" HEAD || exit 2
 export PYTHONHASHSEED=0 PYTHONDONTWRITEBYTECODE=1 TMPDIR="$t"
-cp "$src/demo.py" "$t/demo.py"
+cp "$src"/*.py "$t/"
 (cd "$t" && PYTHONPATH="$w/src" timeout 1200 /venv/bin/python demo.py > "$t/demo_clean.log" 2>&1); rc_clean=$?
 (cd "$w" && git apply "$src/patch.diff") || { echo "patch does not apply"; git -C /repo worktree remove --force "$w"; rm -rf "$t"; exit 2; }
 (cd "$t" && PYTHONPATH="$w/src" timeout 1200 /venv/bin/python demo.py > "$t/demo_patched.log" 2>&1); rc_patched=$?
@@ -34,8 +34,9 @@ print(name, json.dumps(res))
 if ok:
     d = '/verif/seeded/' + name
     os.makedirs(d, exist_ok=True)
-    for f in ('patch.diff', 'demo.py', 'meta.json'):
-        shutil.copy(os.path.join(src, f), d)
+    for f in os.listdir(src):
+        if f.endswith(('.py', '.diff', '.json')) and os.path.isfile(os.path.join(src, f)):
+            shutil.copy(os.path.join(src, f), d)
     json.dump(res, open(d + '/confirm.json', 'w'), indent=1)
 PY
 git -C /repo worktree remove --force "$w"; rm -rf "$t"
